@@ -118,13 +118,15 @@ class Decimal(SimpleModel):
                                                         " %r ! <= %r" % (fd, td)
 
         msl = kwargs.get('max_str_len', None)
-        if msl is None:
-            kwargs['max_str_len'] = cls.Attributes.total_digits + 2
+        if msl is not None:
+            kwargs['max_str_len'] = msl
+
+        elif td is not None:
+            kwargs['max_str_len'] = td + 2
             # + 1 for decimal separator
             # + 1 for negative sign
 
-        else:
-            kwargs['max_str_len'] = msl
+        # otherwise the limit of the type that is being customized stays
 
         minb = cls.Attributes.min_bound
         maxb = cls.Attributes.max_bound
